@@ -58,16 +58,6 @@ fn proxy_impl(attr: TokenStream, input: TokenStream) -> Result<TokenStream, Erro
                 chain_extension_impls.push(extension_impl);
             }
 
-            // Generate regular method implementation
-            let method_impl = generate_method_impl(
-                method,
-                &interface_name,
-                &trait_def.generics,
-                &method_attrs,
-                &crate_path,
-            )?;
-            methods.push(method_impl);
-
             // Generate chain method
             let (chain_trait, chain_impl) = generate_chain_method(
                 method,
@@ -82,6 +72,17 @@ fn proxy_impl(attr: TokenStream, input: TokenStream) -> Result<TokenStream, Erro
             if !chain_impl.is_empty() {
                 chain_method_impls.push(chain_impl);
             }
+
+            // Generate regular method implementation. This strips the `zlink` attributes off the
+            // arguments, so it has to come after the chain variants that need them as well.
+            let method_impl = generate_method_impl(
+                method,
+                &interface_name,
+                &trait_def.generics,
+                &method_attrs,
+                &crate_path,
+            )?;
+            methods.push(method_impl);
         }
     }
 
